@@ -425,3 +425,179 @@ def contents(snap):
         for f in c['files']:
             out += [json.dumps(f['meta']['content'], sort_keys=True), f['diff']['content']]
     return out
+
+
+# ------------------------------------------------------------------ generate_stats (C13)
+import fam_hunks as fh
+
+
+def gen_stats_tree(rng):
+    """A tree whose diffs are assembled from hunk ASTs with known counts; returns (tree JSON, expected per-file counts)."""
+    t = default_tree_json()
+    expect = []
+    if rng.random() < 0.3:
+        t['meta']['content'] = {'stats': {'custom': 'kept', 'insertions': 999}, 'other': [1, 2]}
+    for ci in range(rng.randint(0, 3)):
+        c = dict(opts={}, pre=dict(opts={}, content=None), meta=dict(opts={'format': {'s': 'json'}}, content={}), files=[])
+        if rng.random() < 0.3:
+            c['meta']['content'] = {'stats': {'mine': 1, 'files': 77}, 'id': 'abc'}
+        cexp = []
+        for fi in range(rng.randint(0, 3)):
+            kind = rng.choice(['text', 'text', 'text', 'binary', 'empty', 'absent', 'unparsable'])
+            meta = {'path': 'f%d' % fi}
+            if rng.random() < 0.3:
+                meta['stats'] = {'custom': [1], 'insertions': 5, 'deletions': 6, 'lines changed': 11}
+            o = {}
+            content = None
+            counts = None
+            if kind in ('text', 'binary', 'unparsable'):
+                enc = rng.choice([None, None, 'utf-8', 'latin-1', 'ascii', 'utf-8-sig', 'utf-16', 'utf-16-le', 'utf-32-be'])
+                le = rng.choice([None, 'unix', 'dos'])
+                nlk = le or rng.choice(['unix', 'dos'])
+                hs = [fh.gen_hunk(rng) for _ in range(rng.randint(1, 3))]
+                # payloads must not contain the newline and must be encodable
+                for h in hs:
+                    h['body'] = [(k, p.replace(b'\r', b'').replace(b'\xff\x00', b'zz')) for k, p in h['body']]
+                    h['markers'] = [(i, b'\\ No newline at end of file') for i, m in h['markers']]
+                    if h['ctx'] is not None:
+                        h['ctx'] = h['ctx'].replace(b'\r', b'')
+                seps = [[rng.choice([b'diff --git a/x b/x', b'--- a/x', b'+++ b/x', b'index 1..2', b'garbage'])
+                         for _ in range(rng.choice([0, 1, 2]))] for _ in range(len(hs) + 1)]
+                lines = list(seps[0])
+                for h, s in zip(hs, seps[1:]):
+                    lines += fh.render_hunk(h) + s
+                if kind == 'unparsable':
+                    # an unterminated hunk
+                    lines = lines + [b'@@ -1,5 +1,5 @@', b' only one line']
+                nl = '\n' if nlk == 'unix' else '\r\n'
+                text = nl.join(l.decode('latin-1') for l in lines) + nl
+                if le is None and nlk == 'dos' and not lines:
+                    text = nl
+                try:
+                    data = text.encode(enc) if enc else text.encode('latin-1')
+                except UnicodeError:
+                    data = text.encode('utf-8')
+                    enc = 'utf-8'
+                if enc:
+                    o['encoding'] = {'s': enc}
+                if le:
+                    o['line_endings'] = {'s': le}
+                if kind == 'binary':
+                    o['type'] = {'s': 'binary'}
+                elif rng.random() < 0.3:
+                    o['type'] = {'s': 'text'}
+                content = data.hex()
+                if kind == 'text':
+                    counts = (sum(1 for h in hs for k, _ in h['body'] if k == '+'),
+                              sum(1 for h in hs for k, _ in h['body'] if k == '-'))
+                ascii_compat = enc in (None, 'utf-8', 'latin-1', 'ascii', 'utf-8-sig')
+            elif kind == 'empty':
+                content = ''
+            if kind not in ('text', 'binary', 'unparsable'):
+                ascii_compat = True
+            c['files'].append(dict(opts={}, meta=dict(opts={'format': {'s': 'json'}}, content=meta),
+                                   diff=dict(opts=o, content=content)))
+            cexp.append(dict(kind=kind, counts=counts, old=meta.get('stats'), ascii=ascii_compat))
+        t['changes'].append(c)
+        expect.append(cexp)
+    return t, expect
+
+
+class Stats(Family):
+    name = 'stats'
+    rule = ('trees with 0-3 changes x 0-3 files whose diffs are assembled from generated hunk ASTs with known counts '
+            '(garbage lines between hunks, unix/dos, declared/undeclared line endings, 8 diff encodings incl. UTF-16/32, '
+            'binary/empty/absent/unparsable diffs, pre-existing stats dictionaries with custom keys); generate_stats '
+            'once and twice; non-trivial = at least one text diff; distinct by tree')
+
+    def cases(self, tier, rng, prop_id):
+        for i in range(300 if tier == 'quick' else 8000):
+            t, e = gen_stats_tree(rng)
+            yield dict(kind='tree', tree=t, expect=e)
+
+    def _impl(self, c):
+        if '_impl' not in c:
+            try:
+                d = build(c['tree'])
+                before = snapshot(d)
+                d.generate_stats()
+                s1 = snapshot(d)
+                d.generate_stats()
+                s2 = snapshot(d)
+                c['_impl'] = dict(obs='(ok %s)' % tree_sx(s1), before=before, s1=s1, s2=s2)
+            except Exception as e:
+                c['_impl'] = dict(obs='(exc)', err=type(e).__name__ + ': ' + str(e)[:200])
+        return c['_impl']
+
+    def model_line(self, c):
+        # the model starts from the tree as built (the typed attributes may have normalised nothing here)
+        r = self._impl(c)
+        if 'before' not in r:
+            return None
+        return L('stats', tree_sx(r['before']))
+
+    def impl_obs(self, c):
+        return self._impl(c)['obs']
+
+    def normalize_model(self, line):
+        return sl.collapse_exc(line)
+
+    def key(self, c):
+        return json.dumps(c['tree'], sort_keys=True)
+
+    def nontrivial(self, c):
+        return any(f['kind'] == 'text' for ce in c['expect'] for f in ce)
+
+    def describe(self, c):
+        return dict(kind=c['kind'], tree=c['tree'], expect=c['expect'])
+
+    def oracle(self, c, obs):
+        r = self._impl(c)
+        if 'before' not in r:
+            return [('C13', 'exception', 'generate_stats raised %s' % r.get('err'))]
+        out = []
+        s1, s2, before = r['s1'], r['s2'], r['before']
+        if tree_sx(s1) != tree_sx(s2):
+            out.append(('C13', 'not-idempotent', 'generating twice differs from generating once'))
+        tot = dict(changes=len(s1['changes']), files=0, insertions=0, deletions=0, lines=0)
+        for ci, ch in enumerate(s1['changes']):
+            csum = dict(files=len(ch['files']), insertions=0, deletions=0, lines=0)
+            for fi, f in enumerate(ch['files']):
+                e = c['expect'][ci][fi]
+                st = f['meta']['content'].get('stats')
+                old = e['old']
+                if e['kind'] == 'text':
+                    ins, dels = e['counts']
+                    want = dict(old or {}, insertions=ins, deletions=dels, **{'lines changed': ins + dels})
+                    if st != want:
+                        out.append(('C13', 'file-stats', 'change %d file %d: stats %r, expected %r' % (ci, fi, st, want)))
+                else:
+                    if st != old:
+                        out.append(('C13', 'unanalysed-diff-touched', 'change %d file %d (%s): stats %r, had %r'
+                                    % (ci, fi, e['kind'], st, old)))
+                # everything else in the file is preserved
+                b = before['changes'][ci]['files'][fi]
+                if {k: v for k, v in f['meta']['content'].items() if k != 'stats'} != \
+                        {k: v for k, v in b['meta']['content'].items() if k != 'stats'} or f['diff'] != b['diff'] or f['opts'] != b['opts']:
+                    out.append(('C13', 'not-preserved', 'change %d file %d: something other than stats changed' % (ci, fi)))
+                rep = st or {}
+                for k, kk in (('insertions', 'insertions'), ('deletions', 'deletions'), ('lines', 'lines changed')):
+                    csum[k] += rep.get(kk, 0)
+            cst = ch['meta']['content'].get('stats', {})
+            oldc = before['changes'][ci]['meta']['content'].get('stats', {})
+            wantc = dict(oldc, files=csum['files'], insertions=csum['insertions'], deletions=csum['deletions'],
+                         **{'lines changed': csum['lines']})
+            if cst != wantc:
+                out.append(('C13', 'change-sums', 'change %d: stats %r, expected %r' % (ci, cst, wantc)))
+            tot['files'] += cst.get('files', 0)
+            tot['insertions'] += cst.get('insertions', 0)
+            tot['deletions'] += cst.get('deletions', 0)
+            tot['lines'] += cst.get('lines changed', 0)
+        oldt = before['meta']['content'].get('stats', {})
+        wantt = dict(oldt, changes=tot['changes'], files=tot['files'], insertions=tot['insertions'],
+                     deletions=tot['deletions'], **{'lines changed': tot['lines']})
+        if s1['meta']['content'].get('stats') != wantt:
+            out.append(('C13', 'top-sums', 'top-level stats %r, expected %r' % (s1['meta']['content'].get('stats'), wantt)))
+        if {k: v for k, v in s1['meta']['content'].items() if k != 'stats'} != {k: v for k, v in before['meta']['content'].items() if k != 'stats'}:
+            out.append(('C13', 'not-preserved', 'top-level metadata other than stats changed'))
+        return out
